@@ -134,6 +134,7 @@ func runTracker(c *Ctx, profile string) {
 		for i := 0; i < 4+r.Intn(3); i++ {
 			peers = append(peers, trkPeer{id: r.Bytes(20), port: uint16(1000 + r.Intn(3)), ip: ips[r.Intn(len(ips))]})
 		}
+		downFor := 0
 		for i := 0; i < seqLen; i++ {
 			tc := trkCase{iv: 1800e9, miv: 900e9}
 			switch profile {
@@ -170,6 +171,9 @@ func runTracker(c *Ctx, profile string) {
 				if nw < 50 && r.Intn(4) != 0 {
 					nw = 200
 				}
+			}
+			if downFor > 0 && pick == 9 {
+				pick = 8 // no direct store operations while the store is unreachable
 			}
 			switch pick {
 			case 0, 1, 2, 3: // HTTP announce
@@ -272,13 +276,31 @@ func runTracker(c *Ctx, profile string) {
 				trkUDP(c, uc, tc)
 				c.Kind("udp-scrape")
 			case 9:
+				if kind == "redis" && (profile == "C13" || profile == "C12" || profile == "C09T") && r.Intn(2) == 0 {
+					// Redis goes away for a few requests and comes back
+					storeOp(c, "st.fail", map[string]string{"on": "1"})
+					c.Kind("redis-down")
+					downFor = 2 + r.Intn(4)
+					break
+				}
 				clock += []int64{1e9, 5e9, 60e9}[r.Intn(3)]
 				storeOp(c, "st.clock", map[string]string{"t": strconv.FormatInt(clock, 10)})
 				if r.Intn(3) == 0 {
 					storeOp(c, "st.gc", map[string]string{"cutoff": strconv.FormatInt(clock-int64(r.Intn(100))*1e9, 10), "inst": "0"})
 				}
 			}
+			if downFor > 0 {
+				downFor--
+				if downFor == 0 {
+					storeOp(c, "st.fail", map[string]string{"on": "0"})
+				}
+				continue // no dump while the store cannot be read
+			}
 			storeOp(c, "st.dump", map[string]string{})
+		}
+		if downFor > 0 {
+			storeOp(c, "st.fail", map[string]string{"on": "0"})
+			downFor = 0
 		}
 	}
 }
